@@ -57,6 +57,31 @@ fn k_c07_avx2_argmax_u8_rows2() {
     }
 }
 
+/// ODD number of rows (1 and 3): a kernel unrolled over pairs of rows must not touch a row past the last one.
+#[kani::proof]
+#[kani::unwind(34)]
+#[kani::stub(std::arch::x86_64::_mm256_max_epu8, m256_max_epu8)]
+#[kani::stub(std::arch::x86_64::_mm256_max_epi8, m256_max_epi8)]
+#[kani::stub(std::arch::x86_64::_mm256_blendv_epi8, m256_blendv_epi8)]
+#[kani::stub(std::arch::x86_64::_mm256_load_si256, m256_load_si256)]
+fn k_c07_avx2_max_argmax_u8_rows1() {
+    const R: usize = 1;
+    let sc = sym_scores_u8(R);
+    let c: usize = kani::any();
+    kani::assume(c < 32);
+    match Avx2::max_u8(&sc) {
+        None => panic!("None on a non-empty matrix"),
+        Some(m) => {
+            assert!(m >= sc.matrix()[0][c]);
+            // held by a cell of THE row (Vec::reserve(1) allocates 4 rows: a read of row 1 stays inside the allocation but is garbage)
+            let mut held = false; let mut j = 0;
+            while j < 32 { if sc.matrix()[0][j] == m { held = true; } j += 1; }
+            assert!(held);
+        }
+    }
+    match Avx2::argmax_u8(&sc) { None => panic!("None on a non-empty matrix"), Some(mc) => { assert!(mc.row < R && mc.col < 32); assert!(sc.matrix()[mc.row][mc.col] >= sc.matrix()[0][c]); } }
+}
+
 #[kani::proof]
 #[kani::unwind(4)]
 fn k_c07_avx2_max_empty() {
